@@ -17,7 +17,8 @@ func init() {
 				"Decided: (1) Events and Errors are closed at exactly one site each, in the reader goroutine's deferred function, issued unconditionally at the reader's entry (so on all of its exits); every channel send on them lies in a send function reached only from the reader root, never from an API goroutine or another goroutine; " +
 				"(2) on the first-closer path Close passes close(done) and then closes the notification file on every path; " +
 				"(3) with isClosed() folded to true (sound: done has one writer, the constructor, and is never re-opened) the only reachable returns of AddWith/Remove/WatchList yield ErrClosed/nil/nil and no table access, lock or syscall is reachable in them, and Add reaches AddWith; " +
-				"(4) done, the channels and the reader-exit channel are stored only by constructor code and closed at a single site each. " +
+				"(4) done, the channels and the reader-exit channel are stored only by constructor code and closed at a single site each; " +
+				"(5) every blocking channel operation of the reader is a select with a done case, so a reader parked in a send is released by Close and reaches its deferred close. " +
 				"Not decided: promptness of the close; select fairness; events already buffered in the channel.",
 			Rule:        "obligations per close site, per send site and calling root, per API method under the closed typestate, per channel field writer; non-trivial = site exists in production configuration",
 			Assumptions: []string{"go/types + go/ssa", "deferred functions run on every exit of the function that issued them", "production folding (E-F) re-verified each run"},
@@ -44,6 +45,8 @@ func runC06(p *Program, e *Engine, r *Result, tier string) {
 	c06CloseOrder(a)
 	c06Inert(a)
 	c06Writers(a)
+	// (5) the reader can always reach its deferred close: its blocking channel operations are released by close(done)
+	c05R2(a, "C06.5", a.Ro.Readers)
 }
 
 func chanKind(ro *Roles, t types.Type) string {
@@ -381,7 +384,13 @@ func origins(c *Ctx, v ssa.Value, depth int) []string {
 			}
 			seen["extract:"+stripIDs(rc.path(x))] = true
 		case *ssa.Call:
+			if args, ok := isBuiltinCall(x, "append"); ok && len(args) >= 1 {
+				walk(rc, args[0], d+1)
+				return
+			}
 			walkCallResults(rc, x, 0, d, walk, seen)
+		case *ssa.MakeSlice, *ssa.MakeMap, *ssa.MakeChan:
+			seen["make"] = true
 		case *ssa.Parameter:
 			seen["param:"+x.Name()] = true
 		case *ssa.MakeInterface:
